@@ -3,6 +3,8 @@ import Genshi.WireCore
 import Genshi.Model.Reader
 import Genshi.Model.OutputPipeline
 import Genshi.Lemmas.ReaderDocView   -- specification-side definitions of the document theorems (Mathlib-free)
+import Genshi.Model.OutputWsForest
+import Genshi.Lemmas.OutputWsSpec     -- `normForest`, `wsDom`: specification side of the strip theorems (Mathlib-free)
 namespace Driver.C08
 open Genshi Genshi.Reader Genshi.Output Genshi.Sexp
 
@@ -93,30 +95,35 @@ def doctype? : Sexp → Option (Option DocTypeT)
 
 def out (why : String) : Sexp := .list [.atom "out", .atom why]
 
-def expectHtml (dopt : Option DocTypeT) (s : Stream) : Sexp :=
+def expectHtml (strip : Bool) (dopt : Option DocTypeT) (s : Stream) : Sexp :=
   match forestOf s with
   | none => out "not-nested"
   | some ns =>
-    let (_, dt, body) := splitProlog ns
-    let u := firstNs body
+    let (_, dt, body0) := splitProlog ns
+    let u := firstNs body0
+    -- with `strip_whitespace=True` the theorems speak about the normalised forest (`*_strip_partial`)
+    let body := if strip then normForest .html body0 else body0
     if u == xmlNs then out "xml-namespace"
-    else if !okList body then out "not-a-forest"
-    else if !forestUniformNs u body then out "mixed-namespaces"
+    else if !okList body0 then out "not-a-forest"
+    else if !forestUniformNs u body0 then out "mixed-namespaces"
+    else if strip && !wsDom .html body0 then out "whitespace-domain"
     else if !htmlForestOkP body then out "body-hypotheses"
     else if !dtOkOf (winDt dopt dt) || !dtNoGtOf (winDt dopt dt) then out "doctype-fields"
     else .list [.atom "ok", .list ((htmlDocView (winDt dopt dt) (forestPiecesP body)).flatMap htok)]
 
-def expectXhtml (dropd : Bool) (dopt : Option DocTypeT) (s : Stream) : Sexp :=
+def expectXhtml (strip : Bool) (dropd : Bool) (dopt : Option DocTypeT) (s : Stream) : Sexp :=
   match forestOf s with
   | none => out "not-nested"
   | some ns =>
-    let (decl, dt, body) := splitProlog ns
-    let u := firstNs body
+    let (decl, dt, body0) := splitProlog ns
+    let u := firstNs body0
+    let body := if strip then normForest .xhtml body0 else body0
     if u == xmlNs then out "xml-namespace"
     else if !docNcr u dopt decl dt body then out "carriage-return"
     else if !attrValOkB u then out "namespace-uri"
-    else if !okList body then out "not-a-forest"
-    else if !forestUniformNs u body then out "mixed-namespaces"
+    else if !okList body0 then out "not-a-forest"
+    else if !forestUniformNs u body0 then out "mixed-namespaces"
+    else if strip && !wsDom .xhtml body0 then out "whitespace-domain"
     else if !xKidsOkP false body then out "body-hypotheses"
     else if !xmlForestOkP true body then out "not-resolvable"
     else if !xdViewOk ⟨dropd⟩ decl then out "xmldecl-fields"
@@ -124,17 +131,39 @@ def expectXhtml (dropd : Bool) (dopt : Option DocTypeT) (s : Stream) : Sexp :=
     else .list [.atom "ok", .list ((xdXOf ⟨dropd⟩ decl ++ (dtXOf (winDt dopt dt) ++
       (assemble (forestPiecesXP u false body)).flatMap (xmlMapTok u))).map xtok)]
 
+def method? : String → Option Method
+  | "html" => some .html
+  | "xhtml" => some .xhtml
+  | "xml" => some .xml
+  | _ => none
+
+/-- `wsforest`: `WhitespaceFilter` as a function on the forest (`wsForest`), flattened again, and the
+    normalised forest of the specification (`normForest`) with its domain -/
+def wsForestAnswer (m : Method) (s : Stream) : Sexp :=
+  match forestOf s with
+  | none => out "not-nested"
+  | some ns =>
+    if !okList ns then out "not-a-forest"
+    else .list [.atom "ok", streamToSexp (flattenList (wsForest (wsCfg m) ns)),
+                (if wsDom m ns then .atom "T" else .atom "F"), streamToSexp (flattenList (normForest m ns))]
+
 def handle : List Sexp → Option Sexp
-  -- expect <method> <drop_xml_decl> <doctype> <stream>
-  | [.atom "expect", .atom m, dropd, dt, s] => do
+  -- expect <method> <strip> <drop_xml_decl> <doctype> <stream>
+  | [.atom "expect", .atom m, strip, dropd, dt, s] => do
+      let strip ← strip.toBool?
       let dropd ← dropd.toBool?
       let s ← streamOfSexp? s
       match doctype? dt with
       | none => pure (.atom "unmodelled")
       | some dt =>
-        if m == "html" then pure (expectHtml dt s)
-        else if m == "xhtml" then pure (expectXhtml dropd dt s)
+        if m == "html" then pure (expectHtml strip dt s)
+        else if m == "xhtml" then pure (expectXhtml strip dropd dt s)
         else none
+  -- wsforest <method> <stream>
+  | [.atom "wsforest", .atom m, s] => do
+      let m ← method? m
+      let s ← streamOfSexp? s
+      pure (wsForestAnswer m s)
   | [.atom "read", .atom "html", .str s] =>
       match readHtml s with
       | some ts => some (.list (ts.flatMap htok))
